@@ -283,3 +283,34 @@ Proof.
     + cbn [step]. apply validate_makes_valid.
     + apply step_keeps_valid; auto.
 Qed.
+
+(* ------------------------------------------------------------------ validated_live is decidable *)
+Lemma pair_eqb ph id ph' id' : (ph' =? ph) && bytes_eqb id' id = true <-> ph' = ph /\ id' = id.
+Proof. rewrite andb_true_iff, N.eqb_eq, bytes_eqb_eq. tauto. Qed.
+
+Lemma vlive_b_spec ops ph id : validated_live ops ph id <-> vlive_b ops ph id = true.
+Proof.
+  unfold vlive_b. induction ops as [|op ops IH] using rev_ind.
+  - cbn. split; [|discriminate]. intros (a & r & b & E & _). destruct a; discriminate.
+  - rewrite fold_left_app. cbn [fold_left]. set (acc := fold_left (vstep ph id) ops false) in *.
+    destruct op as [ph' id' r'|ph' id' r'|ph' id'|]; cbn [vstep].
+    + rewrite <- IH. split.
+      * intros H. apply vlive_snoc_inv in H as [(r & E)|[H _]]; [discriminate|auto].
+      * intros H. apply vlive_snoc; auto. discriminate.
+    + destruct ((ph' =? ph) && bytes_eqb id' id) eqn:K.
+      * apply pair_eqb in K as [-> ->]. split; auto. intros _. apply vlive_validate.
+      * rewrite <- IH. split.
+        -- intros H. apply vlive_snoc_inv in H as [(r & E)|[H _]]; auto.
+           inversion E; subst. rewrite N.eqb_refl, bytes_eqb_refl in K. discriminate.
+        -- intros H. apply vlive_snoc; auto. discriminate.
+    + destruct ((ph' =? ph) && bytes_eqb id' id) eqn:K.
+      * apply pair_eqb in K as [-> ->]. split; [|discriminate].
+        intros H. apply vlive_snoc_inv in H as [(r & E)|[_ H]]; [discriminate|]. exfalso. apply H. reflexivity.
+      * rewrite <- IH. split.
+        -- intros H. apply vlive_snoc_inv in H as [(r & E)|[H _]]; [discriminate|auto].
+        -- intros H. apply vlive_snoc; auto. intros E. inversion E; subst.
+           rewrite N.eqb_refl, bytes_eqb_refl in K. discriminate.
+    + rewrite <- IH. split.
+      * intros H. apply vlive_snoc_inv in H as [(r & E)|[H _]]; [discriminate|auto].
+      * intros H. apply vlive_snoc; auto. discriminate.
+Qed.
